@@ -231,6 +231,7 @@ fn before_hook<'a>(
 }
 
 static HOOK_CALLS: AtomicU64 = AtomicU64::new(0);
+static HOOK_GEN: AtomicU64 = AtomicU64::new(0);
 
 struct LazyParser {
     items: Vec<parser::Result<gherkin::Feature>>,
@@ -406,8 +407,12 @@ pub fn run(case: &Value) -> Value {
     // counting process panic hook (C10): nothing may reach it while the run is in progress
     HOOK_CALLS.store(0, Ordering::SeqCst);
     let prev_hook = std::panic::take_hook();
-    std::panic::set_hook(Box::new(|_| {
-        HOOK_CALLS.fetch_add(1, Ordering::SeqCst);
+    // only calls of the hook installed for THIS case count (see the attempt engine)
+    let generation = HOOK_GEN.fetch_add(1, Ordering::SeqCst) + 1;
+    std::panic::set_hook(Box::new(move |_| {
+        if HOOK_GEN.load(Ordering::SeqCst) == generation {
+            HOOK_CALLS.fetch_add(1, Ordering::SeqCst);
+        }
     }));
     let parser = LazyParser { items, delivered: 0 };
     let use_before = case["before_hook"].as_bool().unwrap_or(false);
